@@ -73,6 +73,10 @@ def make_fn(lst, no_deps, is_async=False, name=FN):
     return f
 
 
+def unraw(n):
+    return n[2:] if n.startswith("r#") else n
+
+
 def expected_names(lst, f):
     """Per parameter: the name the statement prescribes, or None when any fresh name is fine."""
     out = []
@@ -81,10 +85,10 @@ def expected_names(lst, f):
         tkey, form, pi, special = ALPHABET[s]
         if form in ("plain", "mut", "ref", "raw"):
             n = p.names[0]
-            out.append(None if n == f.name else (("r#" + n) if form == "raw" else n))
+            out.append(None if n == unraw(f.name) else (("r#" + n) if form == "raw" else n))
         elif form == "destr" and len(p.names) == 1:
             n = p.names[0]
-            out.append(None if n == f.name else n)
+            out.append(None if unraw(n) == unraw(f.name) else n)
         else:
             out.append(None)
     return out
@@ -143,7 +147,7 @@ def check_names(c, rep, pinned=None):
     if len({n[2:] if n.startswith("r#") else n for n in names}) != len(names):
         rep.violation(c.id, "duplicate-names", "generated parameter names are not distinct: %s (list %s)" % (names, lst), pinned=pinned)
         return
-    if f["name"] in [n[2:] if n.startswith("r#") else n for n in names]:
+    if unraw(f["name"]) in [n[2:] if n.startswith("r#") else n for n in names]:
         rep.violation(c.id, "shadows-fn", "a generated parameter shadows the function `%s`: %s (list %s)" % (f["name"], names, lst), pinned=pinned)
         return
     for want, got, sym in zip(c.meta["expected"], names, lst):
@@ -158,14 +162,14 @@ def check_names(c, rep, pinned=None):
     c.meta["observed_names"] = names
 
 
-def build_cases(lists, label, variants):
+def build_cases(lists, label, variants, fn_name=FN):
     cases = []
     i = 0
     for lst in lists:
         for (no_deps, is_async, mode) in variants:
             cid = "c16%s_%05d" % (label, i)
             i += 1
-            f = make_fn(lst, no_deps, is_async)
+            f = make_fn(lst, no_deps, is_async, name=fn_name)
             rng = core.rng_for(PROP, 0, cid)
             b = FnCaseBuilder(cid, rng, mode=mode, options=[], macro="entrait")
             b.build_from([f])
@@ -198,6 +202,11 @@ def run(tier, seed):
             extra.add(l)
     variants = [(False, False, "fn"), (True, False, "fn")]
     cases = build_cases(lists, "e", variants) + build_cases(sorted(extra), "s", variants)
+    # the same, with the function itself named by a raw identifier (`fn r#foo`), for the lists that mention its name
+    FN_SYMS = {s_ for s_, v in ALPHABET.items() if v[3] and v[3].replace("r#", "").rstrip("_") == FN}
+    named = [l for l in lists if any(s_ in FN_SYMS for s_ in l)]
+    cases += build_cases(named, "r", [(False, False, "fn")], fn_name="r#" + FN)
+    rep.extra["lists_with_raw_fn_name"] = len(named)
     if tier != "quick":
         cases += build_cases(lists, "v", [(False, True, "fn"), (False, False, "mod"), (True, True, "fn")])
         l4 = [l for l in itertools.product(syms, repeat=4) if valid(l)]
